@@ -413,12 +413,39 @@ func c19Producers(r *Run, db *SiteDB) {
 		okG := false
 		info := fi.Pkg.TypesInfo
 		for _, s := range db.ByFunc[fi] {
+			if s.Call == nil {
+				continue
+			}
+			// GetAttr called here, or by a private helper (one the pinned tree does not have)
+			// on the File it is handed: qidOf(f) - the File is then the helper's argument
+			var recvX ast.Expr
 			if s.Callee == "p9.File.GetAttr" {
-				// the receiver, with single-assignment locals replaced by what they stand for
-				sel, ok := unparen(s.Call.Fun).(*ast.SelectorExpr)
-				if !ok {
-					continue
+				if sel, ok := unparen(s.Call.Fun).(*ast.SelectorExpr); ok {
+					recvX = sel.X
 				}
+			} else if tf := r.L.FuncOf(callee(info, s.Call)); tf != nil && tf != fi && tf.Decl.Body != nil && !tf.Obj.Exported() && !pinnedFuncs[tf.Key] && tf.Pkg == fi.Pkg {
+				idx := 0
+				for _, f := range tf.Decl.Type.Params.List {
+					for _, nm := range f.Names {
+						pobj := info.Defs[nm]
+						ast.Inspect(tf.Decl.Body, func(n ast.Node) bool {
+							if c, ok := n.(*ast.CallExpr); ok && calleeKey(info, c) == "p9.File.GetAttr" {
+								if sel, ok := unparen(c.Fun).(*ast.SelectorExpr); ok && objOf(info, sel.X) == pobj && idx < len(s.Call.Args) {
+									recvX = s.Call.Args[idx]
+								}
+							}
+							return true
+						})
+						idx++
+					}
+					if len(f.Names) == 0 {
+						idx++
+					}
+				}
+			}
+			if recvX != nil {
+				// the receiver, with single-assignment locals replaced by what they stand for
+				sel := &ast.SelectorExpr{X: recvX}
 				fromMount := func(e ast.Expr) bool {
 					return strings.Contains(strings.ReplaceAll(s.Res.str(e), " ", ""), ".fs.mounts[")
 				}
